@@ -33,8 +33,9 @@
 (* are those of the first / last operand.  CompositeAdjactor only demands  *)
 (* a.ni <= b.nd (slack), the two-adjactor constructors demand equality.    *)
 (*                                                                         *)
-(* The single action Eval predicts, for the expression e with top-level    *)
-(* split e = e1*e2, the result of every public route:                      *)
+(* Init fixes the shape (kinds, node counts, slack, nesting), the action    *)
+(* Pick chooses the operands, the action Eval predicts, for the expression *)
+(* e with top-level split e = e1*e2, the result of every public route:     *)
 (*   iteration of e through image_begin/image_end          = L             *)
 (*   Graph(t, e), Graph(t, e1, e2)                          = exp[t]        *)
 (*   DynamicGraph(t, e), DynamicGraph(t, e1, e2)           = exp[dynt[t]]  *)
@@ -88,26 +89,37 @@ Chains == CASE N = 1 -> {<<k1>> : k1 \in K1}
             [] N = 2 -> {<<k1, k2>> : k1 \in K1, k2 \in K2}
             [] N = 3 -> {<<k1, k2, k3>> : k1 \in K1, k2 \in K2, k3 \in K3}
 NoRes == [nd |-> 0, ni |-> 0, L |-> <<>>, exp |-> <<>>]
-MaxDim == IF ND > NM THEN (IF ND > NI THEN ND ELSE NI) ELSE (IF NM > NI THEN NM ELSE NI)
 Slacks == 0..MaxSlack
 
+\* Init fixes the shape of the expression (kinds, node counts, slack, nesting), Pick chooses the operands of that shape
 Init ==
-  /\ ph = "init" /\ res = NoRes
+  /\ ph = "shape" /\ res = NoRes
   /\ \E ks \in Chains :
-       \/ /\ Len(ks) = 1
-          /\ \E d0 \in 0..ND, d1 \in 0..NI : \E a \in LeavesOf(ks[1], d0, d1) : ops = <<a>>
+       \/ /\ N = 1
+          /\ \E d0 \in 0..ND, d1 \in 0..NI : ops = <<Leaf(ks[1], d0, d1, <<>>, <<>>, <<>>)>>
           /\ nest = "flat" /\ sl = <<0>>
-       \/ /\ Len(ks) = 2
+       \/ /\ N = 2
           /\ \E d0 \in 0..ND, d1 \in 0..NM, d2 \in 0..NI, s2 \in Slacks :
-               /\ \E a \in LeavesOf(ks[1], d0, d1), b \in LeavesOf(ks[2], d1 + s2, d2) : ops = <<a, b>>
+               /\ ops = <<Leaf(ks[1], d0, d1, <<>>, <<>>, <<>>), Leaf(ks[2], d1 + s2, d2, <<>>, <<>>, <<>>)>>
                /\ sl = <<0, s2>>
           /\ nest = "flat"
-       \/ /\ Len(ks) = 3
+       \/ /\ N = 3
           /\ \E d0 \in 0..ND, d1 \in 0..NM, d2 \in 0..NM, d3 \in 0..NI, s2 \in Slacks, s3 \in Slacks :
-               /\ \E a \in LeavesOf(ks[1], d0, d1), b \in LeavesOf(ks[2], d1 + s2, d2), c \in LeavesOf(ks[3], d2 + s3, d3) :
-                    ops = <<a, b, c>>
+               /\ ops = <<Leaf(ks[1], d0, d1, <<>>, <<>>, <<>>), Leaf(ks[2], d1 + s2, d2, <<>>, <<>>, <<>>),
+                          Leaf(ks[3], d2 + s3, d3, <<>>, <<>>, <<>>)>>
                /\ sl = <<0, s2, s3>>
           /\ nest \in Nests
+
+Pick ==
+  /\ ph = "shape"
+  /\ \/ /\ N = 1
+        /\ \E a \in LeavesOf(ops[1].k, ops[1].nd, ops[1].ni) : ops' = <<a>>
+     \/ /\ N = 2
+        /\ \E a \in LeavesOf(ops[1].k, ops[1].nd, ops[1].ni), b \in LeavesOf(ops[2].k, ops[2].nd, ops[2].ni) : ops' = <<a, b>>
+     \/ /\ N = 3
+        /\ \E a \in LeavesOf(ops[1].k, ops[1].nd, ops[1].ni), b \in LeavesOf(ops[2].k, ops[2].nd, ops[2].ni),
+              c \in LeavesOf(ops[3].k, ops[3].nd, ops[3].ni) : ops' = <<a, b, c>>
+  /\ ph' = "init" /\ UNCHANGED <<nest, sl, res>>
 
 \* meaning of the expression: composition in traversal order, for the nesting that is built
 ExprL ==
@@ -123,11 +135,12 @@ Eval ==
              exp |-> [t \in RenderTypes |-> LET r == RenderL(t, nd, ni, L) IN GraphOf(r.nd, r.ni, r.L)]]
   /\ ph' = "done" /\ UNCHANGED <<ops, nest, sl>>
 
-Next == Eval
+Next == Pick \/ Eval
 Spec == Init /\ [][Next]_vars
 
 \* ---- laws -------------------------------------------------------------------------------------------
-OpsValid == /\ \A j \in 1..Len(ops) : LeafValid(ops[j])
+OpsValid == ph # "shape" =>
+            /\ \A j \in 1..Len(ops) : LeafValid(ops[j])
             /\ \A j \in 1..(Len(ops) - 1) : ops[j + 1].nd = ops[j].ni + sl[j + 1]       \* CompositeAdjactor: adj1.ni <= adj2.nd
 
 \* multiplicity of image l at node i of an operand (0 for the unused slack nodes' columns)
@@ -140,17 +153,20 @@ ChainMult(i, l) ==
                          MultL(ops[1], i, k - 1) * SumSeq([m \in 1..ops[2].ni |-> MultL(ops[2], k - 1, m - 1) * MultL(ops[3], m - 1, l)])])
 
 LawExpr == ph = "done" =>
+  LET M == [i \in 0..(res.nd - 1) |-> [l \in 0..(res.ni - 1) |-> ChainMult(i, l)]]
+      MM(a, b) == M[a][b]
+  IN
   /\ Len(res.L) = res.nd
   /\ \A t \in RenderTypes :
-       LET r == res.exp[t] IN
+       LET r == res.exp[t]  A == AdjOf(r) IN
        /\ GraphValid(r)
        /\ r.nd = (IF Transposing(t) THEN res.ni ELSE res.nd) /\ r.ni = (IF Transposing(t) THEN res.nd ELSE res.ni)
-       /\ \A i \in 0..(r.nd - 1), j \in 0..(r.ni - 1) : Mult(r, i, j) = WantMult(t, ChainMult, i, j)
-       /\ (t = "as_is" => AdjOf(r) = res.L)
-       /\ (OrderContractual(t) /\ t # "as_is" => \A i \in 1..r.nd : IsSortedSeq(AdjOf(r)[i]))
-       /\ (Injectifying(t) => \A i \in 1..r.nd : NoDup(AdjOf(r)[i]))
+       /\ \A i \in 0..(r.nd - 1), j \in 0..(r.ni - 1) : Count(A[i + 1], j) = WantMult(t, MM, i, j)
+       /\ (t = "as_is" => A = res.L)
+       /\ (OrderContractual(t) /\ t # "as_is" => \A i \in 1..r.nd : IsSortedSeq(A[i]))
+       /\ (Injectifying(t) => \A i \in 1..r.nd : NoDup(A[i]))
 \* the traversal order is associative, too
-LawAssoc == Len(ops) = 3 =>
+LawAssoc == ph = "done" /\ Len(ops) = 3 =>
   CompL(CompL(ops[1].L, ops[2].L), ops[3].L) = CompL(ops[1].L, CompL(ops[2].L, ops[3].L))
 \* an identity operand (interval i -> i..i) does not change the other operand's meaning
 IsIdentityOp(a) == a.k = "interval" /\ a.nd = a.ni /\ \A i \in 1..a.nd : a.L[i] = <<i - 1>>
